@@ -54,8 +54,8 @@ Proof. intros HD [n H] Hin. exists n. eapply sch_item_sound; eauto. Qed.
 
 Example sch_item_open_array_unsound :
   sch_accepts 3 (ScArray [] None) (XArr false false [XScalar false false (SNum "1")]) = true /\
-  sch_item sch_fuel 0 (ScArray [] None) = ScNever /\
-  forall n, sch_accepts n (sch_item sch_fuel 0 (ScArray [] None)) (XScalar false false (SNum "1")) = false.
+  sch_item (sch_depth (ScArray [] None)) 0 (ScArray [] None) = ScNever /\
+  forall n, sch_accepts n (sch_item (sch_depth (ScArray [] None)) 0 (ScArray [] None)) (XScalar false false (SNum "1")) = false.
 Proof. repeat split. intros [|n]; reflexivity. Qed.
 
 Lemma sch_ok_item g : forall i s, sch_ok s = true -> sch_ok (sch_item g i s) = true.
@@ -70,6 +70,6 @@ Proof.
 Qed.
 
 Lemma sch_item_array i prefix items :
-  sch_item sch_fuel i (ScArray prefix items) =
+  sch_item (sch_depth (ScArray prefix items)) i (ScArray prefix items) =
   match item_sch prefix items i with Some p => sch_union [p] | None => ScNever end.
 Proof. unfold item_sch. cbn. destruct (nth_error prefix i); [reflexivity|]. destruct items; reflexivity. Qed.
